@@ -2,6 +2,7 @@
    pel_registry (component names, message registry) is absent here, so comp_name is empty. *)
 From Coq Require Import List NArith ZArith Bool Arith.
 From PV Require Import Base.Bytes Base.Lit Base.Json Base.PelTypes Model.Render Model.Hwdiags Gen.Tables.
+From PV Require Model.M2c00.
 Import ListNotations.
 Open Scope N_scope.
 
@@ -71,9 +72,14 @@ Definition shipped_env := shipped_env_fx no_fixtures.
 Definition hw_plugin (r : hw_result) : plugin_result :=
   match r with HwOk j => PRetJ j | HwRaise => PRaise (L "@exc") | HwFuel => unsupported end.
 
+(* udparsers.m2c00 with the drawer tables shipped in /repo (Gen/IoTables.v); a trace string outside the modelled
+   %-conversions is the only unsupported case *)
+Definition m2_plugin (r : M2c00.m2_result) : plugin_result :=
+  match r with M2c00.M2Ok j => PRetJ j | M2c00.M2Unsupported => unsupported end.
+
 (* pel/hwdiags/data holds no chip data files in this repository: the chip-data environment is empty *)
 Definition env_fx (fx : fixtures) : env :=
-  shipped_env_fx fx (fun sub ver d => hw_plugin (oe500_ud [] sub ver d)) (fun _ _ _ => unsupported)
+  shipped_env_fx fx (fun sub ver d => hw_plugin (oe500_ud [] sub ver d)) (fun sub ver d => m2_plugin (M2c00.m2c00_shipped sub ver d))
                  (fun refcode words => hw_plugin (oe500_src [] refcode words)).
 Definition env0 : env := env_fx no_fixtures.
 
